@@ -87,6 +87,9 @@ func (e *Exec) step(fr *Frame, st *State, instr ssa.Instruction) []Outcome {
 		T := in.Type().(*types.Pointer).Elem()
 		n := e.elemSlots(T)
 		s2, a := e.alloc(*st, c.Const(64, n), in.Comment)
+		e.regions[a].T = T
+		e.regions[a].n = n
+		e.locals = append(e.locals, e.regions[a])
 		s2 = e.zeroRange(s2, T, a, c.Const(64, 1))
 		*st = s2
 		fr.regs[in] = Val{a}
@@ -301,10 +304,10 @@ func pointerShaped(T types.Type) bool {
 func (e *Exec) tagImplements(tag *Term, iface *types.Interface) *Term {
 	c := e.c
 	if tag.IsConst() {
-		if tag.C == 0 || int(tag.C) >= len(e.P.tagType) {
+		if tag.C == 0 || e.P.typeOfTag(tag.C) == nil {
 			return c.False
 		}
-		return c.BoolC(types.Implements(e.P.tagType[tag.C], iface))
+		return c.BoolC(types.Implements(e.P.typeOfTag(tag.C), iface))
 	}
 	var alts []*Term
 	for _, I := range e.P.implementers(iface) {
@@ -535,10 +538,17 @@ func (e *Exec) binop(fr *Frame, st *State, in *ssa.BinOp, x, y Val) Val {
 
 func (e *Exec) ifaceEq(st *State, x, y Val) *Term {
 	c := e.c
+	// comparison with the nil interface: only the type word matters
+	if y[0].IsConst() && y[0].C == 0 {
+		return c.Eq(x[0], y[0])
+	}
+	if x[0].IsConst() && x[0].C == 0 {
+		return c.Eq(x[0], y[0])
+	}
 	// Values boxed by MakeInterface are compared by content when both tags are the same
 	// known non-pointer type; otherwise by (tag, word).
-	if x[0].IsConst() && y[0].IsConst() && x[0].C == y[0].C && x[0].C != 0 && int(x[0].C) < len(e.P.tagType) {
-		T := e.P.tagType[x[0].C]
+	if x[0].IsConst() && y[0].IsConst() && x[0].C == y[0].C && x[0].C != 0 && e.P.typeOfTag(x[0].C) != nil {
+		T := e.P.typeOfTag(x[0].C)
 		if !pointerShaped(T) {
 			a := e.loadFrom(st.h, x[1], T)
 			b := e.loadFrom(st.h, y[1], T)
